@@ -192,6 +192,27 @@ func e13RunCtx(r *Res, d e13desc, fireStep, firePoint, fireCtx int) (int, int) {
 				rmu.Unlock()
 			}()
 		}
+		// Refilter calls racing with the shutdown: each returns nil or ErrNotRunning
+		tmu.Lock()
+		var filtered []*node
+		for _, n := range t.nodes {
+			if n.refilt != nil && !isClosed(n.done) {
+				filtered = append(filtered, n)
+			}
+		}
+		tmu.Unlock()
+		for i := 0; i < 3 && i < len(filtered); i++ {
+			nd := filtered[(i*5+d.Scen)%len(filtered)]
+			f := fam[(i*3+d.Scen)%len(fam)]
+			rwg.Add(1)
+			go func() {
+				defer rwg.Done()
+				err := nd.refilt(f)
+				rmu.Lock()
+				raced = append(raced, raceRes{"Refilter on " + nd.String(), err, nil})
+				rmu.Unlock()
+			}()
+		}
 		// owners closing their own leaves while the root goes down and events are in flight
 		tmu.Lock()
 		var leaves []*node
